@@ -81,6 +81,28 @@ def r05_1(ctx: Ctx):
     return obs
 
 
+def _is_counter_increment(f, a) -> bool:
+    """`self.metaepoch_count += 1`, `self.metaepoch_count = self.metaepoch_count + 1`, or the same through one local
+    (`nxt = self.metaepoch_count + 1; self.metaepoch_count = nxt`)."""
+    from ..core import canon, local_defs
+
+    if isinstance(a, ast.AugAssign):
+        return isinstance(a.op, ast.Add) and isinstance(a.value, ast.Constant) and a.value.value == 1 and isinstance(a.target, ast.Attribute) and a.target.attr == "metaepoch_count"
+    if isinstance(a, (ast.Assign, ast.AnnAssign)) and getattr(a, "value", None) is not None:
+        tg = a.targets if isinstance(a, ast.Assign) else [a.target]
+        if len(tg) != 1 or not (isinstance(tg[0], ast.Attribute) and tg[0].attr == "metaepoch_count"):
+            return False
+        v = a.value
+        if isinstance(v, ast.Name):
+            ds = local_defs(f).get(v.id, [])
+            if len(ds) != 1:
+                return False
+            v = ds[0]
+        want = canon(tg[0])
+        return isinstance(v, ast.BinOp) and isinstance(v.op, ast.Add) and sorted([canon(v.left), canon(v.right)]) == sorted([want, "1"])
+    return False
+
+
 def r05_2(ctx: Ctx):
     """R05.2 the tree's metaepoch counter: 0 in the constructor, exactly one `+= 1` on every path of run_step, no other writer in pyhms."""
     tree = ctx.prog.cls("DemeTree")
@@ -112,7 +134,7 @@ def r05_2(ctx: Ctx):
             ok = isinstance(n, (ast.Assign, ast.AnnAssign)) and isinstance(n.value, ast.Constant) and n.value.value == 0
             obs.append(ctx.ob("R05.2", f, n, status=OK if ok else VIOLATION, detail="constructor initialises the counter to 0" if ok else "constructor initialises the metaepoch counter to something other than 0"))
         elif f.cls is tree and f.name == "run_step":
-            ok = isinstance(n, ast.AugAssign) and isinstance(n.op, ast.Add) and isinstance(n.value, ast.Constant) and n.value.value == 1
+            ok = _is_counter_increment(f, n)
             if not ok:
                 obs.append(ctx.ob("R05.2", f, n, status=VIOLATION, detail="run_step writes the metaepoch counter other than by `+= 1`"))
         else:
@@ -123,7 +145,9 @@ def r05_2(ctx: Ctx):
 
     def is_inc(n):
         a = n.ast
-        return isinstance(a, ast.AugAssign) and isinstance(a.target, ast.Attribute) and a.target.attr == "metaepoch_count" and is_self_attr(a.target, None, f.self_name())
+        if isinstance(a, ast.AugAssign):
+            return isinstance(a.target, ast.Attribute) and a.target.attr == "metaepoch_count" and is_self_attr(a.target, None, f.self_name())
+        return a is not None and _is_counter_increment(f, a) and is_self_attr((a.targets[0] if isinstance(a, ast.Assign) else a.target), None, f.self_name())
 
     def node_fn(n, s):
         if n.kind == "stmt" and is_inc(n):
@@ -382,7 +406,10 @@ def r05_5(ctx: Ctx):
     for target, allowed in table:
         sites = ctx.res.callers_of(target)
         # dynamic dispatch over-approximation: deme.run_metaepoch(tree) resolves to AbstractDeme subclasses only
-        bad = [cs for cs in sites if cs.caller.qualname not in allowed]
+        from .common import private_closure
+
+        allowed_c = private_closure(ctx, set(allowed))
+        bad = [cs for cs in sites if cs.caller.qualname not in allowed_c]
         for cs in bad:
             obs.append(ctx.ob("R05.5", cs.caller, cs.node, status=VIOLATION, detail=f"{target.short} called from {cs.caller.short}; allowed callers: {sorted(a.split('.')[-1] for a in allowed)}"))
         if not bad:
